@@ -240,6 +240,69 @@ func c02(c *core.Ctx) {
 		c.EndRule()
 	}
 
+	// ---------------------------------------------------------------- R7
+	if c.Rule("R7", "what a call returns is what its return statement said: no function of the library that starts a goroutine lets that goroutine store into one of its own result variables — the store can land after the return statement has set the result (while a deferred function runs), turning a failed call into a nil error or one status into another", 2) {
+		n := 0
+		for _, pk := range []string{"httpgrpc", "inprocgrpc", "internal", "grpchan"} {
+			for _, fn := range p.LibFuncs(pk) {
+				if fn.Signature.Results().Len() == 0 {
+					continue
+				}
+				// goroutines the function starts (closures, at any nesting depth)
+				launched := map[*ssa.Function]bool{}
+				core.InstrsDeep(fn, func(_ *ssa.Function, in ssa.Instruction) {
+					if g, ok := in.(*ssa.Go); ok {
+						if mc, isMC := g.Call.Value.(*ssa.MakeClosure); isMC {
+							launched[mc.Fn.(*ssa.Function)] = true
+						}
+					}
+				})
+				if len(launched) == 0 {
+					continue
+				}
+				n++
+				inGoroutine := func(f *ssa.Function) bool {
+					for ; f != nil && f != fn; f = f.Parent() {
+						if launched[f] {
+							return true
+						}
+					}
+					return false
+				}
+				// the result variables: cells every return loads its result from
+				resultCells := map[*ssa.Alloc]string{}
+				for _, r := range core.Returns(fn) {
+					for i, v := range r.Results {
+						if ld, ok := v.(*ssa.UnOp); ok && ld.Op == token.MUL {
+							if al, isAl := ld.X.(*ssa.Alloc); isAl && fn.Signature.Results().At(i).Name() != "" && al.Comment == fn.Signature.Results().At(i).Name() {
+								resultCells[al] = al.Comment
+							}
+						}
+					}
+				}
+				bad := ""
+				var where token.Pos
+				for al, name := range resultCells {
+					for _, st := range core.StoresTo(al) {
+						if st.Parent() != fn && inGoroutine(st.Parent()) {
+							bad, where = name, st.Pos()
+						}
+					}
+				}
+				key := core.FuncName(fn) + ":results-not-written-by-its-goroutines"
+				if bad != "" {
+					c.Fail(key, where, "a goroutine started by this function stores into its result variable %q: when the function returns while the goroutine still runs (an early return, a deferred function that takes time) the store replaces what the return statement set — a non-OK status becomes nil, or the other way round", bad)
+				} else {
+					c.Ok(key, fn.Pos(), "no goroutine the function starts stores into a result variable of it")
+				}
+			}
+		}
+		if n < 2 {
+			c.Fail("library:goroutine-starting-functions", token.NoPos, "ANCHOR-MISSING: expected functions with results that start goroutines (the unary HTTP call, the in-process call), found %d", n)
+		}
+		c.EndRule()
+	}
+
 	// ---------------------------------------------------------------- R6 (shared)
 	// the status the client reports is the handler's: the library itself never cancels a call that is still in
 	// use (a cancelling finalizer on an object the blocked operation does not keep reachable — C04/R9)
